@@ -12,7 +12,7 @@ Theorem kill_terminates pr b :
   let r := kill P pr b in
   k_returns r = true /\
   (0 <= k_budget r <= Z.max (kp_keepalive P) (match kp_rpc_deadline P with Some d => d | None => 0 end + kp_grace P))%Z /\
-  (b <> NeverStarted -> k_exited r = true) /\
+  (b <> NeverStarted -> b <> LaunchFailed -> k_exited r = true) /\
   (k_clean_exit r = true -> k_forced r = false) /\
   ((b = ExitsAtOnce \/ b = ExitsAfterDelay) -> k_forced r = false /\ k_clean_exit r = true) /\
   ((b = Ignores \/ b = Frozen \/ b = FailedHandshake) -> k_forced r = true).
